@@ -255,6 +255,10 @@ def inputs_for(v, prop, tier, tag):
         if not q:
             items = items * 4
     else:  # C11
+        # a client's SET / DEL fails in the store (the writer held at the failing call) while another client reads the key
+        for op in ("del", "set"):
+            items.append({"kind": "fault-vs-get", "op": op, "nth": 0})
+            items.append({"kind": "fault-vs-get", "op": op, "nth": 1, "max_file": 0})
         for i in range(16 if q else 160):
             items.append({"clients": rnd.choice([2, 3, 4]), "ops": rnd.choice([5, 6, 8]), "keys": rnd.choice([1, 1, 2]),
                           "windows": 5 if q else 8, "delay_us": rnd.choice([200, 600, 1500]), "merger": i % 3 != 0,
